@@ -253,6 +253,16 @@ func runC14(c *ctx) {
 				}
 				subs = append(subs, h)
 			}
+			// a looked-up "host" that is spelt exactly like a listener of the push (<ip>_<port> of another service): the name
+			// table cannot resolve it, so it is bound to nothing - a name is never matched against listener names directly
+			forced := ""
+			for _, e := range tbl {
+				if len(e.vs) > 0 && r.chance(50) {
+					forced = e.vs[0] + "_80"
+					subs = append(subs, forced)
+					break
+				}
+			}
 			for _, s := range subs {
 				w.m.VerifWatch(xdsresource.ListenerType, s, false)
 			}
@@ -260,6 +270,12 @@ func runC14(c *ctx) {
 			var lis [][2]string
 			var anys []*anypb.Any
 			seenL := map[string]bool{}
+			if forced != "" {
+				seenL[forced] = true
+				st := fmt.Sprintf("rc-%d-%d-forced", wi, ti)
+				lis = append(lis, [2]string{forced, st})
+				anys = append(anys, anyListenerRDS(forced, st))
+			}
 			for i, e := range tbl {
 				if len(e.vs) == 0 {
 					continue
